@@ -48,6 +48,9 @@ theorem client_guarded_fields_under_mutex : clientUnguarded = [] := by decide
     holds a mutex they may need -/
 theorem client_waits_without_locks : clientWaitsHolding = [] := by decide
 theorem server_waits_without_locks : serverWaitsHolding = [] := by decide
+/-- every rpc2 codec of the client and the server is wrapped so that requests and responses are written one
+    at a time (rpc2 writes responses under no lock, and its JSON encoder is not safe for concurrent use: D74) -/
+theorem rpc_writes_serialized : rpcCodecsUnserialized = [] := by decide
 /-- every use of the server's monitor table is made under monitorMutex -/
 theorem server_guarded_fields_under_mutex : serverUnguarded = [] := by decide
 
